@@ -10,10 +10,16 @@ RULE = ("random fill sequences (length 1-30 quick / 1-60 thorough) on a bare Pos
         "(`1.5000`, `1.500000`) so that equal values meet with different scales; EXACT HUGE magnitudes - whole quantities of 1e8..4e9 units at prices around 1e6 "
         "(notional 1e14..4e15; the grids above stop at 7e8) where every quantity ratio the code forms is a power of two (a position is increased only by doubling, "
         "at most three times per life, reduced by halving, closed exactly, flipped to its mirror, or flipped with a remainder at zero fee), so rust_decimal computes "
-        "the entry average, the pro-rata fees and the unrealised estimate without rounding and the tolerance plays no role. A case is distinct by the SHA-1 of its op lines and "
+        "the entry average, the pro-rata fees and the unrealised estimate without rounding and the tolerance plays no role. INPUT-DOMAIN family (ids d*, l*; N/5 + 3 cases in three classes, own generator): "
+        "TIMES - exchange timestamps in any order (40 % decreasing, 20 % equal, 20 % from {-1 day, -1 s, -1, 0, 1, 1 s, +1 day, +31 years}; everything above only moves time forward by 0-5 ms); "
+        "LOTS - quantities with 8 decimals (1e-8, 2e-8, 5e-7, 0.12345678, 0.99999999, 1, 2.5) at prices 1e-8 .. 65 432.10987 with exact closes / mirror flips / remainders in that scale "
+        "(through the Engine without the 1e-8 price and the 0.5 fee: see ASSUMPTIONS); REBATES - a third of the fees negative and, on the bare manager, 3 % of the prices zero or negative (outside the quantifier: model-vs-code only; through the Engine a position closed at an average entry price of 0 makes the tear sheet divide by zero); "
+        "and LONG - 3 (thorough: 40) cases of one position built from 100-160 (thorough: -400) fills, increases and partial reductions, then exact close, reopen, mirror flip, exact close. A case is distinct by the SHA-1 of its op lines and "
         "non-trivial when the implementation's observation changes at least once")
 ASSUMPTIONS = [
     "every fill has quantity > 0 (quantity = 0 makes rust_decimal panic on a division by zero in approximate_remaining_exit_fees; rejected as bad-op by harness and model)",
+    "exchange timestamps of the fills are arbitrary integers in any order (decreasing, equal, negative): the property does not mention time; the spec's `life` / `exlife` keys take time_enter from the fill that opened the position and time_exit from the fill that closed it, whatever their order",
+    "through the Engine a closed position also feeds the tear sheet (pnl return = pnl / (entry price x max quantity), squared by Welford's recurrence): a notional of 1e-16 with a fee of 0.5 gives a return of 5e15 whose square overflows rust_decimal and Engine::process panics in statistic::algorithm::welford_online (Decimal overflow - not modelled, code outside this property's anchors; the bare PositionManager handles the same fills). 1e-8 prices combined with 1e-8 lots are therefore generated for the bare manager only",
     "all fills of a history are on one instrument (the engine routes by instrument; per-instrument independence is theorem engine_routes_per_instrument)",
     "exact rational arithmetic: the 'up to decimal rounding' of the property is the 1e-18 tolerance of the correspondence, not part of the theorems",
     "magnitudes: generated notionals stay below 4e15 and, above 1e9, inside the regime that rust_decimal computes exactly; beyond that the 1e-18 tolerance (relative to the "
